@@ -1,6 +1,7 @@
 import Driver.Sexp
 import IweModel.Model.Path
 import Driver.GraphOps
+import Driver.RouterOps
 
 open Iwe
 
@@ -36,6 +37,8 @@ def dispatch : Sexp → Except String Sexp
     GraphOps.actionsOp ext imp steps key (line.toNat?.getD 0)
   | .list [.atom "graph.rename", .str ext, .list (.atom "import" :: imp), .list (.atom "steps" :: steps), .str fromKey, url, .str newName] => do
     GraphOps.renameOp ext imp steps fromKey (← Codec.optStr? url) newName
+  | .list (.atom "router.run" :: .atom w :: .atom c :: .atom notes :: acts) =>
+    RouterOps.runOp (w == "true") (c == "true") (notes.toNat?.getD 1) acts
   | other => .error s!"unknown request {other.toStr.take 80}"
 
 partial def loop (h : IO.FS.Stream) (out : IO.FS.Stream) : IO Unit := do
